@@ -1,6 +1,6 @@
 (* C14 — banner and shim-script injection touch HTML documents only.  Statements only. *)
 From Coq Require Import List Arith Bool String ZArith.
-From IP Require Import Codec.ReplaceFirst Lib.Header Banner.Banner Proofs.HeaderProofs Proofs.BannerProofs.
+From IP Require Import Codec.ReplaceFirst Lib.Header Banner.Banner Banner.Writer Proofs.HeaderProofs Proofs.BannerProofs Proofs.WriterProofs.
 Import ListNotations.
 
 (* "<head>" *)
@@ -54,6 +54,35 @@ Proof.
     intros k H1 H2 H3 H4 H5. rewrite hvalues_hdel_other by congruence. rewrite !hvalues_hset_other by congruence. reflexivity.
 Qed.
 Print Assumptions C14_banner_marks.
+
+(* the response writer that carries the decision out, on the calls httputil.ReverseProxy makes for one response - any
+   number of informational responses (100..199), the final header, the body in any pieces: the wrapped writer (and so
+   the client) sees the informational responses, the backend's final status, and then the backend's pieces unchanged,
+   or - when the decision for that status is the frame page - the frame page once and none of the backend's bytes *)
+Theorem C14_writer : forall dec page (interims : list Z) final (pieces : list (list nat)),
+  Forall (fun c => informational c = true) interims -> informational final = false ->
+  wout (w_run dec page (map WHeader interims ++ [WHeader final] ++ map WBody pieces)) =
+    map WHeader interims ++ [WHeader final] ++ match dec final with FramePage => [WBody page] | _ => map WBody pieces end /\
+  (let o := wout (w_run dec page (map WHeader interims ++ [WHeader final] ++ map WBody pieces)) in
+   final_status o = Some final /\ interims_of o = interims /\
+   body_of o = match dec final with FramePage => page | _ => List.concat pieces end).
+Proof.
+  intros dec page interims final pieces Hi Hf. split; [apply writer_exact; assumption|].
+  exact (writer_client_view dec page interims final pieces Hi Hf).
+Qed.
+Print Assumptions C14_writer.
+
+(* ... and a body written without a header gets the implicit 200, decided like any other 200 *)
+Theorem C14_writer_implicit_200 : forall dec page b (pieces : list (list nat)),
+  wout (w_run dec page (map WBody (b :: pieces))) =
+  [WHeader 200%Z] ++ match dec 200%Z with FramePage => [WBody page] | _ => map WBody (b :: pieces) end.
+Proof. exact writer_implicit_200. Qed.
+Print Assumptions C14_writer_implicit_200.
+
+Example C14_writer_example :
+  wout (w_run (fun c => if (c =? 200)%Z then FramePage else Passthrough) [9] [WHeader 103%Z; WHeader 404%Z; WBody [1; 2]; WBody [3]]) = [WHeader 103%Z; WHeader 404%Z; WBody [1; 2]; WBody [3]] /\
+  wout (w_run (fun c => if (c =? 200)%Z then FramePage else Passthrough) [9] [WHeader 103%Z; WHeader 200%Z; WBody [1; 2]; WBody [3]]) = [WHeader 103%Z; WHeader 200%Z; WBody [9]].
+Proof. split; reflexivity. Qed.
 
 Example C14_example :
   (* "<html><head><title>" with a first read of 12 bytes: inserted after <head>; a first read of 8 bytes: unchanged *)
